@@ -4,9 +4,14 @@ package main
 
 // Built only against an instrumented scratch copy (see instrument.go): every
 // function of the framework, the lints and the helpers then yields to the
-// baton scheduler on entry.
+// baton scheduler on entry, and every textual time.Now / time.Since /
+// time.Until of those packages reads the simulated clock.
 
-import "github.com/zmap/zlint/v3/verifyield"
+import (
+	"time"
+
+	"github.com/zmap/zlint/v3/verifyield"
+)
 
 const fineGrainBuild = true
 
@@ -15,3 +20,19 @@ func installFineGrain(s *sched) {
 }
 
 func uninstallFineGrain() { verifyield.Hook = nil }
+
+// setSimClock installs the simulated clock: every clock read of instrumented
+// code returns t (unix seconds, UTC) and is reported to onRead.
+func setSimClock(t int64, onRead func(site string)) {
+	if t == 0 {
+		verifyield.Clock = nil
+		return
+	}
+	now := time.Unix(t, 0).UTC()
+	verifyield.Clock = func(site string) time.Time {
+		if onRead != nil {
+			onRead(site)
+		}
+		return now
+	}
+}
